@@ -94,13 +94,21 @@ pub fn layer_parse<'a>(proto: Proto, layer: Layer, keys: &'a LibKeys<'a>, token:
     l => {
       let mut p = new_parser(proto, l);
       let reuse = token.len() % 5 == 1; // setters called twice: the value set last counts
+      let assertion_first = token.len() % 3 == 2; // the two settings in either order
+      if assertion_first {
+        if let Some(a) = assertion {
+          if !p.assertion(a) {
+            return Err(LibErr::other("harness: v1/v2 take no implicit assertion"));
+          }
+        }
+      }
       if let Some(f) = footer {
         if reuse {
           p.footer("decoy-footer");
         }
         p.footer(f);
       }
-      if let Some(a) = assertion {
+      if let (Some(a), false) = (assertion, assertion_first) {
         if reuse {
           p.assertion("decoy-assertion");
         }
